@@ -11,6 +11,7 @@ import (
 	"os"
 	"sort"
 	"strings"
+	"sync"
 	"testing"
 	"testing/synctest"
 	"time"
@@ -56,33 +57,50 @@ type Body func() Outcome
 
 // RunOnce executes body under the scheduler following prefix (default choice afterwards).
 func RunOnce(prefix []int, paranoid bool, body Body) (res Exec) {
-	defer func() {
-		// synctest panics in the caller when the bubble's root returns while goroutines are
-		// still durably blocked: that is a deadlock of the code under test (or a goroutine
-		// that outlived the call), reported as such instead of killing the worker.
-		if r := recover(); r != nil {
-			vsched.S = nil
-			msg := fmt.Sprint(r)
-			if !strings.Contains(msg, "deadlock") {
-				panic(r)
+	// synctest.Test runs on a helper goroutine: when the race detector reported something
+	// during the bubble, package testing fails the bubble's T and Test calls t.FailNow,
+	// i.e. runtime.Goexit — that must end the helper, not the worker.
+	done := make(chan struct{})
+	go func() {
+		defer close(done)
+		defer func() {
+			// synctest panics in the caller when the bubble's root returns while goroutines
+			// are still durably blocked: a deadlock of the code under test (or a goroutine that
+			// outlived the call), reported as such instead of killing the worker.
+			if r := recover(); r != nil {
+				vsched.S = nil
+				msg := fmt.Sprint(r)
+				if !strings.Contains(msg, "deadlock") {
+					panic(r)
+				}
+				res.Deadlock = true
+				res.Leaked = append(res.Leaked, "bubble: "+msg)
 			}
-			res.Deadlock = true
-			res.Leaked = append(res.Leaked, "bubble: "+msg)
-		}
+		}()
+		synctest.Test(T, func(t *testing.T) {
+			s := &vsched.Sched{Prefix: prefix, Horizon: 20 * time.Minute, Paranoid: paranoid, MaxSteps: 20000}
+			vsched.S = s
+			var out Outcome
+			var mu sync.Mutex // real mutex: the hand-off of out must be visible to the race detector
+			s.Main("main", func() {
+				o := body()
+				mu.Lock()
+				out = o
+				mu.Unlock()
+			})
+			s.Run()
+			vsched.S = nil
+			mu.Lock()
+			o := out
+			mu.Unlock()
+			res = Exec{Choices: s.Choices, Points: s.Points, sched: s, Steps: s.Steps, Deadlock: s.Deadlock, TimedOut: s.TimedOut,
+				Diverged: s.Diverged, Panics: s.Panics(), Out: o, FakeTime: s.Elapsed()}
+			if s.Deadlock {
+				res.Leaked = s.Leaked()
+			}
+		})
 	}()
-	synctest.Test(T, func(t *testing.T) {
-		s := &vsched.Sched{Prefix: prefix, Horizon: 20 * time.Minute, Paranoid: paranoid, MaxSteps: 20000}
-		vsched.S = s
-		var out Outcome
-		s.Main("main", func() { out = body() })
-		s.Run()
-		vsched.S = nil
-		res = Exec{Choices: s.Choices, Points: s.Points, sched: s, Steps: s.Steps, Deadlock: s.Deadlock, TimedOut: s.TimedOut,
-			Diverged: s.Diverged, Panics: s.Panics(), Out: out, FakeTime: s.Elapsed()}
-		if s.Deadlock {
-			res.Leaked = s.Leaked()
-		}
-	})
+	<-done
 	return res
 }
 
@@ -113,6 +131,8 @@ type Explorer struct {
 	// PostCheck, when set, derives a violation from engine-level facts (deadlock, panic,
 	// leak) in addition to the body's own oracle.
 	PostCheck func(x *Exec) (key, detail string)
+	// AfterExec runs after every execution (race-report collection).
+	AfterExec func(x *Exec)
 }
 
 func (e *Explorer) verdict(x *Exec) (string, string) {
@@ -243,6 +263,9 @@ func (e *Explorer) runBound(bound int) Stats {
 		}
 		paranoid := len(prefix) == 0 || st.Executions%97 == 0
 		x := RunOnce(prefix, paranoid, e.Body)
+		if e.AfterExec != nil {
+			e.AfterExec(&x)
+		}
 		shared := e.Split && depth < 2 // executed by every shard, accounted by shard 0 only
 		count := !shared || c.Shard == 0
 		if count {
